@@ -124,6 +124,13 @@ impl ExchangeId {
         self.check_no_pending_retrans(matter)?;
 
         loop {
+            // Subscribe to session removals *before* looking at the session, so that a removal
+            // which happens from here on is never missed
+            let mut session_removed = pin!(matter.transport().wait_session_removed());
+
+            // Bail out if our session is gone already
+            self.with_state(matter, |_| Ok(()))?;
+
             let mut recv = pin!(matter.transport().get_if_rx(|packet| {
                 if packet.buf.is_empty() {
                     false
@@ -139,11 +146,11 @@ impl ExchangeId {
                         Ok(false)
                     });
 
-                    for_us.unwrap_or(true)
+                    // If our session is gone, the packet in the RX buffer is NOT ours: leave it
+                    // to its owner. (We learn about the removal via `wait_session_removed`.)
+                    for_us.unwrap_or(false)
                 }
             }));
-
-            let mut session_removed = pin!(matter.transport().wait_session_removed());
 
             let mut timeout = pin!(Timer::after(Duration::from_millis(self.with_state(
                 matter,
